@@ -57,7 +57,7 @@ CHECKS.update({
         design="§6 C08",
     ),
     "C09": dict(
-        text="Lean 4 theorems on the calibration model: resumption (calibrate on D1 then continue on D2 from the result = one pass over D1++D2, for every model/recipe/data), first sample initialises, statistics complete after >=1 sample. Calibrator compared bit-exactly (float32 EMA arithmetic included) with the model on contents captured by the harness's own interpreter; all ways of splitting 1..4 samples into sessions; independent EMA / true-min-max oracle; previous result unmodified.",
+        text="Lean 4 theorems on the calibration model: resumption (calibrate on D1 then continue on D2 from the result = one pass over D1++D2, for every model/recipe/data; C09c lifts it by induction to ANY number of resumed sessions and shows the cut points irrelevant: resume_many, split_irrelevant), first sample initialises, statistics complete after >=1 sample. Calibrator compared bit-exactly (float32 EMA arithmetic included) with the model on contents captured by the harness's own interpreter; all ways of splitting 1..4 samples into sessions; independent EMA / true-min-max oracle; previous result unmodified.",
         note="C09b: EXACTNESS is proved: the entry recorded for a runtime tensor is the left fold of the 0.95 moving average over its per-sample min/max in dataset order, each sample counted once (runtime_stats_exact / _unique under the model-wide unique names the library requires; necessity witness Collision.not_exact replayed on the real code), constants carry their true min/max (const_stats_exact/_minmax), resumed = single pass (resumed_stats_exact), order matters (order_matters); the interpreter producing tensor contents is external (input of the model)",
         design="§6 C09",
     ),
